@@ -33,6 +33,14 @@ CHECKS = {
               "bytes, sizes, maxBits and both decoders (ASan build) on exhaustive small alphabets, threshold node counts and skewed profiles."),
         note=TB_COMMON + "Tree shape is a universally quantified input (optimality of the heap-built tree not modelled); code words <= 64 bits; 'stays within its buffer' is observed by ASan, not proved.",
         technique="Coq proof (induction over trees/sequences) + model/implementation differential check with the implementation's tree as oracle input"),
+    "C19": dict(
+        category="proof", design_ref="DESIGN.md §4 C19",
+        text=("Theorems over the byte-list model of rw.c: write-then-read is the identity for the integer family under either declaration and for "
+              "float/double under the machine's, a byte-swapped file read with the swap declared returns the original values for every bit pattern, "
+              "declaring the other endianness equals byte-swapping each element, element count = length/width, missing file = failure status; "
+              "model and implementation (real files, ASan) compared on file bytes, values, counts and statuses for all ten element types."),
+        note=TB_COMMON + "OS file layer trusted; host little-endian.",
+        technique="Coq proof over a byte-list file model + differential check on real files"),
 }
 
 NOT_YET = {}
